@@ -268,6 +268,49 @@ STRVALS = ["", "x", "hello world", "0x1F", "0xFFFFFFFF", "0x", "0xZ", "0x1g", " 
            "-2147483648", "-2147483649", "99999999999999999999", "true", "TRUE", "False", "yes", "1.5", "0x10 ", "\uff11", "- a", "a: b",
            "a\nb\n", " a\n", "one\r\n", "a\r\nb\r\n", "a\rb\n", "null", "~", "\t12", "0X1F", "0x7fffffff", "0x80000000", "0x123456789", "1e3", "--1", "+-1", "- 1", "\u00e9"]
 INTVALS = [0, 1, -1, 42, 255, 2147483647, -2147483648, 1000000, -99]
+# texts for the typed-conversion stream: what GetInt / GetBool / GetDouble make of a string somebody else stored
+TYPEDTEXTS = ["010", "0100", "-0012", "08", "09", "0090", "007", "-08", "+08", "00", "-00", "000", "0", "-0", "+0",
+              "0X1F", "0x1F", "0x1f", "-0x10", "+0x10", "0x1Fzz", "0x1F ", " 0x10", "0x", "0xg", "0x-1", "0x7FFFFFFF", "0x80000000",
+              "0xffffffff", "0x100000000", "0xFFFFFFFFFFFFFFFFFF", "\t12", "\n12", " \t\n 7", "\v\f\r3", "+5", "-5", "+-5", "--5", "5-", "- 5",
+              "1e3", "1E3", "0b1", "0b101", "0o17", "017", "1_000", "1,000", "12 34", "123456789012345678901234567890",
+              "-123456789012345678901234567890", "2147483647", "2147483648", "-2147483648", "-2147483649", "4294967295", "4294967296",
+              ".5", "5.", "-.5", "1.5e2", "  2.25", "3.0abc", "+", "-", "", " ", "abc", "true", "TRUE", "tRuE", "false", "False ", " true",
+              "yes", "1", "0", "\uff11\uff12", "12\u00e9"]
+
+
+def doc_get_int(s):
+    """ConfigValue::GetInt as documented: texts starting with "0x" that are hexadecimal to the end are read by
+    strtoul(.., 16) into an unsigned int; everything else by std::stoi (white space, sign, DECIMAL digits, the rest
+    ignored; no digits or out of int range -> failure).  Returns an int or None."""
+    if not s:
+        return None
+    c = s.split(b"\0")[0]
+    if s.startswith(b"0x"):
+        m = re.fullmatch(rb"0x([0-9a-fA-F]+)", c)
+        if m:
+            v = min(int(m.group(1), 16), 2 ** 64 - 1) & 0xFFFFFFFF
+            return v - 2 ** 32 if v >= 2 ** 31 else v
+    m = re.match(rb"[ \t\n\v\f\r]*([+-]?)([0-9]+)", c)
+    if not m:
+        return None
+    v = int(m.group(2))
+    if m.group(1) == b"-":
+        v = -v
+    return v if -2 ** 31 <= v <= 2 ** 31 - 1 else None
+
+
+def doc_get_bool(s):
+    low = bytes(ch + 32 if 65 <= ch <= 90 else ch for ch in s)
+    return True if low == b"true" else False if low == b"false" else None
+
+
+def doc_get_double(s):
+    """std::stod on plain decimal spellings only (None = this oracle does not judge the text)"""
+    c = s.split(b"\0")[0]
+    m = re.match(rb"[ \t\n\v\f\r]*([+-]?(?:[0-9]+\.?[0-9]*|\.[0-9]+)(?:[eE][+-]?[0-9]+)?)", c)
+    if not m or re.match(rb"[ \t\n\v\f\r]*[+-]?0[xX]", c):
+        return None
+    return float(m.group(1))
 
 
 def stable_readback(key):
@@ -305,10 +348,12 @@ def gen_history(rng, n):
             rb = [stable_readback(k) for k in keys]
             rbp = None if (None in rb or "" in keys) else "/".join(rb)
             t = rng.random()
+            typed_after = None
             if t < 0.4:
-                v = rng.choice(STRVALS)
+                v = rng.choice(TYPEDTEXTS) if rng.random() < 0.5 else rng.choice(STRVALS)
                 ops.append("ss:%d:%s:%s" % (c, hp, v.encode("utf-8").hex()))
                 kind, val = "gs", "S" + v.encode("utf-8").hex()
+                typed_after = v.encode("utf-8")
             elif t < 0.7:
                 v = rng.choice(INTVALS) if rng.random() < 0.7 else rng.randint(-2 ** 31, 2 ** 31 - 1)
                 ops.append("si:%d:%s:%d" % (c, hp, v))
@@ -333,6 +378,22 @@ def gen_history(rng, n):
                     canon = "/".join(rb[:-1] + ["@%d" % (int(m.group(2)) + (m.group(1) == "after"))])
                     ops.append("%s:%d:%s" % (kind, c, canon.encode("utf-8").hex()))
                     expect.append((len(ops) - 1, seti, kind, val))
+                # values of other types convert as documented or fail cleanly: read the string through the typed getters
+                if typed_after is not None and rng.random() < 0.7:
+                    rh = rbp.encode("utf-8").hex()
+                    di, db, dd = doc_get_int(typed_after), doc_get_bool(typed_after), doc_get_double(typed_after)
+                    ops.append("gi:%d:%s" % (c, rh))
+                    expect.append((len(ops) - 1, seti, "gi", "I!" if di is None else "I%d" % di))
+                    ops.append("gb:%d:%s" % (c, rh))
+                    expect.append((len(ops) - 1, seti, "gb", "F!" if db is None else "F%d" % int(db)))
+                    if dd is not None:
+                        ops.append("gd:%d:%s" % (c, rh))
+                        expect.append((len(ops) - 1, seti, "gd", dd))
+                    only_map_keys = not any(k.startswith("@") for k in keys)   # null list elements vanish in a save/load cycle
+                    if scalar_domain(typed_after) == "in" and only_map_keys and rng.random() < 0.5:     # ... once more after save/load
+                        ops.append("sl:%d" % c)
+                        ops.append("gi:%d:%s" % (c, rh))
+                        expect.append((len(ops) - 1, seti, "gi", "I!" if di is None else "I%d" % di))
         elif r < 0.62:
             ops.append("%s:%d:%s" % (rng.choice(["gs", "gi", "gb", "gd", "ls", "gs", "gi"]), c, hp))
         elif r < 0.70:
@@ -347,6 +408,117 @@ def gen_history(rng, n):
         else:
             ops.append("sl:%d" % c)
     return ops, expect
+
+
+def gen_insert_history(rng):
+    """a list built element by element, then writes through every list-reference form whose value DUPLICATES the element at
+    the insertion point (plain strings, or maps one level down: list/@before N/id); the expectations come from this
+    function's own list model of the documented forms (@before N inserts before element N, @after N before N+1, ...)"""
+    ops, expect = [], []
+    c = rng.choice([0, 1, 2])
+    base = rng.choice(["l", "a/l", "m/k1/l", "x.y"])
+    deep = rng.random() < 0.4          # elements are maps {id: v}
+    suffix = "/id" if deep else ""
+
+    def hx(p):
+        return p.encode("utf-8").hex()
+    ops.append("ml:%d:%s" % (c, hx(base)))
+    vals = []
+    for i in range(rng.randint(0, 4)):
+        v = rng.choice(["a", "b", "c", "dup", "x y"])
+        ops.append("ss:%d:%s:%s" % (c, hx(base + "/@next" + suffix), hx(v)))
+        vals.append(v)
+    for _ in range(rng.randint(1, 5)):
+        s_ = len(vals)
+        form = rng.choice(["before", "after", "before last", "after last", "index", "last", "next"])
+        n = rng.randint(0, max(s_, 1))
+        if form == "before":
+            key, idx, ins = "@before %d" % n, n, True
+        elif form == "after":
+            key, idx, ins = "@after %d" % n, n + 1, True
+        elif form == "before last":
+            key, idx, ins = "@before last", max(s_ - 1, 0), True
+        elif form == "after last":
+            key, idx, ins = "@after last", (s_ if s_ > 0 else 0), True
+        elif form == "index":
+            key, idx, ins = "@%d" % n, n, False
+        elif form == "last":
+            key, idx, ins = "@last", max(s_ - 1, 0), False
+        else:
+            key, idx, ins = "@next", s_, False
+        if deep and idx > s_:
+            continue       # would need padding with nulls below a map key: keep the model simple
+        neighbour = vals[idx] if idx < s_ and vals[idx] is not None else None
+        v = neighbour if (neighbour is not None and rng.random() < 0.75) else rng.choice(["a", "b", "new", "dup"])
+        ops.append("ss:%d:%s:%s" % (c, hx(base + "/" + key + suffix), hx(v)))
+        seti = len(ops) - 1
+        while len(vals) < idx:
+            vals.append(None)
+        if ins:
+            vals.insert(idx, v)
+        elif idx < len(vals):
+            vals[idx] = v
+        else:
+            vals.append(v)
+        ops.append("ls:%d:%s" % (c, hx(base)))
+        expect.append((len(ops) - 1, seti, "ls", "Z%d" % len(vals)))
+        for j in sorted({idx, min(idx + 1, len(vals) - 1), rng.randrange(len(vals))}):
+            ops.append("gs:%d:%s" % (c, hx(base + "/@%d" % j + suffix)))
+            expect.append((len(ops) - 1, seti, "gs", "S!" if vals[j] is None else "S" + hx(vals[j])))
+        if rng.random() < 0.3:
+            ops.append("il:%d:%s" % (c, hx(base)))
+    return ops, expect
+
+
+def list_growth_oracle(op, before, after):
+    """documented meaning of the list forms, judged on the implementation's trees: a successful write whose first list
+    reference is an insertion form (@before N, @after N, @before last, @after last) grows that list by exactly one and
+    shifts the later elements; @N in range and @last do not change the size"""
+    f = op.split(":")
+    p = bytes.fromhex(f[2]).decode("utf-8")
+    if p in ("", "/"):
+        return None
+    keys = p.lstrip("/").split("/")
+    if "" in keys:
+        return None
+    tb, ta = parse_tree(before), parse_tree(after)
+    for i, k in enumerate(keys):
+        islist = len(k) > 1 and k[0] == "@" and k[1].isalnum() and ord(k[1]) < 128
+        if islist:
+            break
+        tb = tb.get(k.encode("utf-8")) if isinstance(tb, dict) else None
+        ta = ta.get(k.encode("utf-8")) if isinstance(ta, dict) else None
+    else:
+        return None
+    if tb is not None and not isinstance(tb, list):
+        return None
+    lb = tb or []
+    if not isinstance(ta, list):
+        return "the node a list reference was written through is not a list afterwards"
+    s_ = len(lb)
+    m = re.fullmatch(r"@(before|after) (\d+)", k)
+    if m:
+        idx, ins = int(m.group(2)) + (m.group(1) == "after"), True
+    elif k == "@before last":
+        idx, ins = max(s_ - 1, 0), True
+    elif k == "@after last":
+        idx, ins = (s_ if s_ > 0 else 0), True
+    elif re.fullmatch(r"@\d+", k):
+        idx, ins = int(k[1:]), False
+    elif k == "@last":
+        idx, ins = max(s_ - 1, 0), False
+    elif k == "@next":
+        idx, ins = s_, False
+    else:
+        return None
+    if idx > 64:
+        return None
+    want = max(s_, idx) + 1 if ins else max(s_, idx + 1)
+    if len(ta) != want:
+        return "list size after a write through %s is %d, documented %d (was %d)" % (k.split(" ")[0] + (" N" if m else ""), len(ta), want, s_)
+    if ins and idx <= s_ and (ta[:idx] != lb[:idx] or ta[idx + 1:] != lb[idx:]):
+        return "an insertion did not shift the later list elements by one"
+    return None
 
 
 # ----------------------------------------------------------------------------
@@ -393,8 +565,20 @@ MUTATION_DRILLS = [
      "compiles": True, "detected": True,
      "fired": "VIOLATION roundtrip:multi-line:carriage-return (found_input): root scalar \"one\\r\\n\" reloads as \"one\\n\"; 84 of the 114 "
               "cr-line-breaks trees fail the implementation-only round-trip oracle (root, block map value, block sequence entry, map key)"},
+    {"mutation": "config_types.cc ConfigValue::GetInt: decimal fallback std::stoi replaced by strtol(.., &end, 0) with explicit checks "
+                 "(base 0 reads 0<digits> as octal: \"010\" -> 8, \"08\" -> 0, \"0X1F\" -> 31; independently seeded change, first MISSED: "
+                 "no such texts were generated - typed-conversion texts and a documented-result oracle added)", "compiles": True,
+     "detected": True, "fired": "VIOLATION conversion:ss->gi (found_input): config_set_string \"010\" then config_get_int gives 8, documented 10; "
+                                "\"+08\" gives 0 for 8; \"0090\" gives 0 for 90"},
+    {"mutation": "config_data.cc ConfigData::TraverseWrite: early return when Traverse(node_path) already holds an equal scalar "
+                 "(\"value unchanged, don't copy the path\"; for @before/@after the read side names the NEIGHBOUR, so a duplicate is never "
+                 "inserted; independently seeded change, first reported only as correspondence - list-size oracle and duplicate-insertion "
+                 "histories added)", "compiles": True,
+     "detected": True, "fired": "VIOLATION list-form:size-after-ss and list-form:size (found_input): list [a, b], config_set_string(\"l/@before 0\", "
+                                "\"a\") leaves size 2, documented 3; also one level down (\"a/l/@before 0/id\" with the neighbour's id)"},
     {"mutation": "config_types.cc ConfigValue::GetBool: boost::to_lower removed (case-sensitive)", "compiles": True,
-     "detected": True, "fired": "VIOLATION correspondence:api-history no-failing-input-found"},
+     "detected": True, "fired": "VIOLATION correspondence:api-history no-failing-input-found (at the time; the typed-conversion oracle added later "
+                                "judges config_get_bool of \"TRUE\"/\"tRuE\" as documented)"},
     {"mutation": "config_data.cc EmitYaml: lists in flow style from depth 4 instead of 3 (harmless layout change)", "compiles": True,
      "detected": True, "fired": "VIOLATION correspondence:emitted-bytes no-failing-input-found (reported, as the brief prescribes for a model/code mismatch)"},
 ]
@@ -501,11 +685,11 @@ def run(ctx):
     nh = 6000 if thorough else 600
     hists = []
     for i in range(nh):
-        ops, expect = gen_history(rng, rng.randint(1, 30))
+        ops, expect = gen_history(rng, rng.randint(1, 30)) if i % 4 else gen_insert_history(rng)
         hists.append((ops, expect))
     hl = ["H " + ";".join(ops) for ops, _ in hists]
     hi, hm = run_both(ctx, rmodel, exe, hl, "histories")
-    hist_diff, gas_fail, frame_fail = [], [], []
+    hist_diff, gas_fail, frame_fail, forms_fail = [], [], [], []
     opdist = {}
     ncalls = 0
     gas_checked = 0
@@ -549,6 +733,9 @@ def run(ctx):
                     ff = top_level_frame(ops[j], trees_before[cidx], trees_now[cidx])
                     if ff:
                         frame_fail.append((hidx, j, ff, x))
+                    lg = list_growth_oracle(ops[j], trees_before[cidx], trees_now[cidx])
+                    if lg:
+                        forms_fail.append((hidx, j, lg, x))
             trees_before = trees_now
         for gi, si, kind, val in expect:
             if gi >= len(ia) or "|" not in ia[gi] or "|" not in ia[si]:
@@ -586,6 +773,7 @@ def run(ctx):
         "cross_loader_differences": len(cross_diff), "roundtrip_oracle_failures_on_impl": len(oracle_fail),
         "history_differences": len(hist_diff), "get_after_set_checked_on_impl": gas_checked,
         "get_after_set_failures_on_impl": len(gas_fail), "frame_failures_on_impl": len(frame_fail),
+        "list_form_failures_on_impl": len(forms_fail),
         "mutation_drills": MUTATION_DRILLS,
     })
 
@@ -631,9 +819,21 @@ def run(ctx):
                                       "ConfigData::SaveToStream, then ConfigData::LoadFromStream of the bytes and compare",
                                "cmd": "echo 'T %s' | %s" % (lines[idx][2:][:3000], exe)}, found_input=True)
     for hidx, si, gi, so, go, got, val in gas_fail[:3]:
-        real += ctx.violation("get-after-set:" + so.split(":")[0], "a getter does not return the value just set",
+        sk, gk = so.split(":")[0], go.split(":")[0]
+        if gk == "ls":
+            vkey, vwhat = "list-form:size-after-" + sk, "config_list_size after a write through a list reference is not the documented size"
+        elif {"ss": "gs", "si": "gi", "sb": "gb", "sd": "gd"}.get(sk) == gk:
+            vkey, vwhat = "get-after-set:" + sk, "a getter does not return the value just set"
+        else:
+            vkey, vwhat = "conversion:%s->%s" % (sk, gk), "a value of another type does not convert as documented (or does not fail cleanly)"
+        real += ctx.violation(vkey, vwhat,
                               {"history": hl[hidx], "set_call": so, "get_call": go, "got": got, "expected": str(val),
                                "ops": "ss/si/sb/sd = config_set_string/int/bool/double, gs/gi/gb/gd = config_get_*, fields c:hex(path):value",
+                               "cmd": "echo '%s' | %s" % (hl[hidx], exe)}, found_input=True)
+    for hidx, j, why, x in forms_fail[:3]:
+        fkey = "size" if why.startswith("list size") else "shift" if "shift" in why else "not-a-list"
+        real += ctx.violation("list-form:" + fkey, "a list-reference form does not do what it is documented to do: " + why,
+                              {"history": hl[hidx], "call_index": j, "call": hists[hidx][0][j], "observation": x[:2000],
                                "cmd": "echo '%s' | %s" % (hl[hidx], exe)}, found_input=True)
     for hidx, j, why, x in frame_fail[:3]:
         real += ctx.violation("frame:" + why.replace(" ", "-"), "an API call changed something it must not: " + why,
